@@ -90,6 +90,8 @@ int main() {
         chai.add(fun([](const std::shared_ptr<T> &t) { return t->get(); }), "by_sp");
         chai.add(fun([](const std::shared_ptr<T> &t) { g_kept.push_back(t); return static_cast<int>(g_kept.size()); }), "keep");
         chai.add(fun([]() { g_kept.clear(); }), "release_all");
+        chai.add(fun([](std::shared_ptr<T> &p, int v) { p = std::make_shared<T>(v); }), "reseat");       // the script's variable now owns another object
+        chai.add(fun([](std::shared_ptr<T> &p) { p.reset(); }), "unseat");
         chai.add(fun([](int v) { return T(v); }), "make_value");
         chai.add(fun([](int v) { return std::make_shared<T>(v); }), "make_sp");
         chai.add(fun([](int v) { return std::make_unique<T>(v); }), "make_up");
